@@ -81,6 +81,7 @@ MUTANTS = [
     ("resterm-negligible-or", "C02", "include/pomerol/TwoParticleGFPart.h", "return std::abs(t.ResCoeff) < Tolerance / ToleranceDivisor &&\n                       std::abs(t.NonResCoeff) < Tolerance / ToleranceDivisor;", "return std::abs(t.ResCoeff) < Tolerance / ToleranceDivisor ||\n                       std::abs(t.NonResCoeff) < Tolerance / ToleranceDivisor;"),
     ("nrterm-merge-weight", "C02", "src/pomerol/TwoParticleGFPart.cpp", "    Weight=combinedWeight;\n    Coeff += AnotherTerm.Coeff;", "    Coeff += AnotherTerm.Coeff;"),
     ("susterm-merge-drop", "C14", "src/pomerol/SusceptibilityPart.cpp", "    Residue += AnotherTerm.Residue;\n    return *this;", "    Residue = AnotherTerm.Residue;\n    return *this;"),
+    ("gf-copy-shallow", "C17", "src/pomerol/GreensFunction.cpp", "        parts.push_back(new GreensFunctionPart(**iter));", "        parts.push_back(*iter);"),
     ("lattice-orbital-check", "C20", "src/pomerol/Lattice.cpp", "if (T->Orbitals[i]>=Sites[T->SiteLabels[i]]->OrbitalSize)", "if (T->Orbitals[i]>Sites[T->SiteLabels[i]]->OrbitalSize)"),
     ("lattice-zero-filter", "C20", "src/pomerol/Lattice.cpp", "if ( std::abs(T->Value) ) Terms->addTerm(T);", "Terms->addTerm(T);"),
     ("getsite-inverted", "C20", "src/pomerol/Lattice.cpp", "if (it1==Sites.end()) throw (exWrongLabel());", "if (it1!=Sites.end()) throw (exWrongLabel());"),
